@@ -267,7 +267,29 @@ def machine_factory(ctx, tier):
             self.history = {"init": {"rankings": ds["rankings"], "scheme": scheme}, "ops": []}
             self.it = Interp(self.history["init"])
 
-        @rule(pair=st.sampled_from(RUN_PAIRS), flag=st.booleans(), rng=st.integers(0, 9999))
+        # Hypothesis' swarm testing disables a random subset of rules in each history: the algorithm runs are split
+        # over four rules so that most histories contain some
+        @rule(pair=st.sampled_from([p for p in RUN_PAIRS if configs.BY_NAME[p[0]].family == "exact"]),
+              flag=st.booleans(), rng=st.integers(0, 9999))
+        def run_exact(self, pair, flag, rng):
+            self.run(pair, flag, rng)
+
+        @rule(pair=st.sampled_from([p for p in RUN_PAIRS if configs.BY_NAME[p[0]].family == "parcons"]),
+              flag=st.booleans(), rng=st.integers(0, 9999))
+        def run_parcons(self, pair, flag, rng):
+            self.run(pair, flag, rng)
+
+        @rule(pair=st.sampled_from([p for p in RUN_PAIRS if configs.BY_NAME[p[0]].family == "bioconsert"]),
+              flag=st.booleans(), rng=st.integers(0, 9999))
+        def run_bioconsert(self, pair, flag, rng):
+            self.run(pair, flag, rng)
+
+        @rule(pair=st.sampled_from([p for p in RUN_PAIRS if configs.BY_NAME[p[0]].family in
+                                    ("borda", "copeland", "kwiksort", "pickaperm")]),
+              flag=st.booleans(), rng=st.integers(0, 9999))
+        def run_simple(self, pair, flag, rng):
+            self.run(pair, flag, rng)
+
         def run(self, pair, flag, rng):
             name, env = pair
             n = len(oracle.universe(self.history["init"]["rankings"]))
